@@ -26,8 +26,10 @@ from .chooser import Chooser, EventLog
 from .sched import HarnessError
 
 VERIF = os.path.dirname(os.path.dirname(os.path.abspath(__file__)))
-EVIDENCE_DIR = os.path.join(VERIF, "evidence")
-REPLAY_DIR = os.path.join(VERIF, "replays")
+_ALT = os.environ.get("VERIF_REPO")
+_OUT = os.path.join(_ALT, ".verif-out") if _ALT else VERIF
+EVIDENCE_DIR = os.path.join(_OUT, "evidence")
+REPLAY_DIR = os.path.join(_OUT, "replays")
 KNOWN_FINDINGS = os.path.join(VERIF, "known_findings.json")
 
 
